@@ -10,6 +10,9 @@ use vcore::{json, Check, Outcome, Report, Tier, Value};
 pub const K: f64 = 25.0;
 const PROBLEMS12: [&str; 12] = ["lin+1", "lin-2", "logistic", "gauss", "cost", "relax", "bernoulli", "osc1", "rot2:lin-2+logistic", "rot2:cost+relax", "rot3:osc2.5+gauss", "rot4:osc1+logistic+bernoulli"];
 
+/// problems whose Lipschitz constant does not depend on the amplitude (linear in the state), run at large amplitude
+const LARGE: [&str; 8] = ["lin+1", "gauss", "osc1", "sum2:lin+1+rest", "sum2:rest+lin+1", "sum2:lin+1+lin-2", "rot2:cost+relax", "rot3:osc2.5+gauss"];
+
 fn ninf(a: &[f64]) -> f64 {
     a.iter().fold(0.0, |m, x| m.max(x.abs()))
 }
@@ -73,6 +76,15 @@ impl Check for Local {
                     }
                 }
             }
+            // estimator-limited regime: large amplitudes make the local error at the capped step far larger than
+            // tol x h, so the accepted steps are the ones the error estimate lets through (cap-limited share is low)
+            for p in LARGE {
+                for &tol in &t.pick(vec![1e-4, 1e-7], vec![1e-3, 1e-5, 1e-7, 1e-9]) {
+                    for &u0_scale in &t.pick(vec![60.0], vec![60.0, 2000.0]) {
+                        v.push(LocalPt { solver, problem: p.to_string(), tol, c: 1.0, u0_scale });
+                    }
+                }
+            }
         }
         v
     }
@@ -122,6 +134,104 @@ impl Check for Local {
         o.transitions = out.items.len() as u64;
         let share = if out.items.is_empty() { 0.0 } else { capped as f64 / out.items.len() as f64 };
         o.metric("share-of-cap-limited-steps", share);
+        o.sig = format!("{}|tol{:e}|cap-limited:{}|{}", p.solver.name(), p.tol, if share > 0.9 { ">90%" } else if share > 0.5 { ">50%" } else { "<=50%" }, end_name(&out));
+        o
+    }
+}
+
+#[derive(Serialize, Deserialize, Clone, Debug)]
+pub struct LocalCplxPt {
+    pub solver: Solver,
+    /// y' = lam * y componentwise; two components when lam2 is given
+    pub lam: (f64, f64),
+    pub lam2: Option<(f64, f64)>,
+    /// initial state amp * e^(i phase)  (second component: amp * e^(-i phase) / 2)
+    pub amp: f64,
+    pub phase_deg: f64,
+    pub tol: f64,
+}
+pub struct LocalCplx;
+impl Check for LocalCplx {
+    type P = LocalCplxPt;
+    fn name(&self) -> &'static str {
+        "local-accuracy-complex"
+    }
+    fn rule(&self) -> String {
+        "6 adaptive solvers x complex linear problems y' = lam y (lam real, imaginary, complex; 1 and 2 components) x initial phase {45, 10, 135 degrees} x amplitude {1, 60} x tolerance, maximum step at the property's cap; every consecutive pair judged against y e^(lam h) in the modulus; signature = (solver, tolerance, share of cap-limited steps class, end kind)".into()
+    }
+    fn axes(&self, t: Tier) -> Value {
+        json!({"lam": [[1.0, 0.0], [0.0, 1.5], [-0.4, 2.0]], "lam2": [null, [-2.0, 0.0]], "phase_deg": [45.0, 10.0, 135.0], "amp": [1.0, 60.0], "tol": t.pick(vec![1e-4, 1e-7], vec![1e-3, 1e-5, 1e-7, 1e-9])})
+    }
+    fn points(&self, t: Tier) -> Vec<LocalCplxPt> {
+        let mut v = vec![];
+        for &solver in &ADAPTIVE {
+            for &lam in &[(1.0, 0.0), (0.0, 1.5), (-0.4, 2.0)] {
+                for &lam2 in &[None, Some((-2.0, 0.0))] {
+                    for &phase_deg in &[45.0, 10.0, 135.0] {
+                        for &amp in &[1.0, 60.0] {
+                            for &tol in &t.pick(vec![1e-4, 1e-7], vec![1e-3, 1e-5, 1e-7, 1e-9]) {
+                                if t == Tier::Quick && lam2.is_some() && phase_deg != 45.0 {
+                                    continue;
+                                }
+                                v.push(LocalCplxPt { solver, lam, lam2, amp, phase_deg, tol });
+                            }
+                        }
+                    }
+                }
+            }
+        }
+        v
+    }
+    fn run(&self, p: &LocalCplxPt) -> Outcome {
+        let mut o = Outcome::new();
+        let mut lams = vec![C64::new(p.lam.0, p.lam.1)];
+        let ph = p.phase_deg.to_radians();
+        let mut z0 = vec![C64::from_polar(p.amp, ph)];
+        if let Some(l2) = p.lam2 {
+            lams.push(C64::new(l2.0, l2.1));
+            z0.push(C64::from_polar(p.amp / 2.0, -ph));
+        }
+        let l = lams.iter().map(|x| x.norm()).fold(0.5, f64::max);
+        let (t0, t1) = (0.3, 0.3 + 2.0 / l);
+        let dtmax = step_cap(p.solver, p.tol, l);
+        let cfg = Cfg { tol: p.tol, dtmin: 1e-7 * dtmax, dtmax, t0, t1 };
+        let lim = Limits { max_calls: 40_000_000, max_items: 4_000_000, extra_next: 0 };
+        let lc = lams.clone();
+        let rc: Rhs<C64> = Rc::new(move |_t, y| Ok(y.iter().zip(&lc).map(|(y, l)| l * y).collect()));
+        let out = solve::<C64>(p.solver, DimMode::Static, &cfg, &z0, rc, &lim);
+        let subj = subject(p.solver);
+        if let Some(m) = &out.panic {
+            o.viol(&subj, "no-panic", format!("{:?}: {}", p, m));
+            return o;
+        }
+        let bdf = matches!(p.solver, Solver::BDF6 | Solver::BDF2);
+        let mut prev = (t0, z0.clone());
+        let (mut capped, mut worst) = (0usize, 0.0f64);
+        for (i, (t, y)) in out.items.iter().enumerate() {
+            let h = t - prev.0;
+            if y.len() != z0.len() || y.iter().any(|v| !(v.re.is_finite() && v.im.is_finite())) {
+                break;
+            }
+            if !(h > 0.0) {
+                prev = (*t, y.clone());
+                continue;
+            }
+            if h >= dtmax * (1.0 - 1e-9) {
+                capped += 1;
+            }
+            let err = prev.1.iter().zip(&lams).zip(y).map(|((u, l), y)| (u * (l * h).exp() - y).norm()).fold(0.0, f64::max);
+            let ymax = y.iter().map(|v| v.norm()).fold(0.0, f64::max);
+            let bound = K * p.tol * if bdf { 1.0 } else { h } + 64.0 * EPS * ymax;
+            worst = worst.max(err / bound);
+            if !(err <= bound) {
+                o.viol(&subj, if bdf { "local-error<=K*tol" } else { "local-error<=K*tol*h" }, format!("{:?}: step {} from t={:?} h={:e}: |y - flow| = {:e}, bound {:e} ({} x tol{})", p, i, prev.0, h, err, bound, err / (p.tol * if bdf { 1.0 } else { h }), if bdf { "" } else { "*h" }));
+                break;
+            }
+            prev = (*t, y.clone());
+        }
+        o.metric(&format!("{}-complex-local-err/bound", p.solver.name()), worst);
+        o.transitions = out.items.len() as u64;
+        let share = if out.items.is_empty() { 0.0 } else { capped as f64 / out.items.len() as f64 };
         o.sig = format!("{}|tol{:e}|cap-limited:{}|{}", p.solver.name(), p.tol, if share > 0.9 { ">90%" } else if share > 0.5 { ">50%" } else { "<=50%" }, end_name(&out));
         o
     }
@@ -434,6 +544,7 @@ impl Check for ComplexTwin {
 pub fn main_c02(mut r: Report) -> ! {
     r.assumptions = vec![format!("K = {} (observed worst ratio reported under worst_observed)", K), "closed-form flows of the catalogue are the reference; Lipschitz constants come from the closed forms".into()];
     r.run(&Local);
+    r.run(&LocalCplx);
     r.finish()
 }
 pub fn main_c04(mut r: Report) -> ! {
